@@ -148,14 +148,15 @@ PROPS["C04"] = dict(
     stubs=["selection::enhanced::in_flight_cap_exceeded and cc_soft_cap_multiplier -> their exact tables on the leaf domain (see C03 / "
            "c11_leaf_tables_exact)"],
     assumptions=["clock values <= 2^48 ms", "enhanced harnesses: 50 ms quality cache fresh"],
-    outside="ONLY THE SCHEDULER LAYER IS DECIDED (normal scheduling and score hysteresis: whatever select_connection_idx returns has completed "
-            "registration since its last reset, is not timed out and is not stall-gated after the call). The keyframe-window / SRT-retransmit "
-            "priority override in the shell's handle_srt_packet (select_best_quality_idx applied at the call site), pre-registration forwarding "
-            "and the duplicate probes are NOT decided: the composition harness over the real handle_srt_packet (hk/shell/src/c04.rs) compiles "
-            "but exhausts 14 GB in CBMC, and checking select_best_quality_idx alone would raise an alarm on a tree that filters at the call "
-            "site. Fault histories are covered inductively through the arbitrary pre-state.",
+    outside="Decided: (i) whatever select_connection_idx returns - normal scheduling or score hysteresis - and (ii) whatever the priority override's "
+            "selector select_best_quality_eligible_idx returns when called right after it (same order as the call site) has completed registration "
+            "since its last reset, is not timed out and is not stall-gated. NOT decided: the condition at the call site in the shell's handle_srt_packet "
+            "(data packet && enhanced mode && (critical window || retransmit flag) && target != scheduler's choice), pre-registration forwarding and "
+            "the duplicate probes - the composition harness over the real handle_srt_packet (hk/shell/src/c04.rs, asserting all of it) still exhausts "
+            "CBMC's memory because that function awaits nested async fns (DESIGN.md 2.5). Defect F5 was found at exactly that call site and repaired. "
+            "Fault histories are covered inductively through the arbitrary pre-state.",
     harnesses=[
-        H("c03::c03_classic_n2", "core", desc="classic: selected uplink is registered, not timed out, not stall-gated", bounds="N=2"),
+        H("c03::c03_classic_n2", "core", desc="classic: selected uplink AND the priority-override target are registered, not timed out, not stall-gated; the target has the best cached quality among eligible links", bounds="N=2"),
         H("c03::c03_enhanced_n2", "core", desc="enhanced (incl. hysteresis hold): same", bounds="N=2"),
         H("c03::c03_classic_n3", "core", tier="thorough", bounds="N=3", timeout=3000),
         H("c03::c03_enhanced_n3", "core", tier="thorough", bounds="N=3", timeout=3000),
@@ -186,10 +187,9 @@ PROPS["C10"] = dict(
     bounds=SEL_BOUNDS + "; 0..2 queued packets per link; N = 2 (quick), 3 and 4 (thorough); window rules: all i32 in-flight values",
     stubs=["alloc::fmt::format -> empty String"],
     assumptions=["clock values <= 2^48 ms"],
-    outside="'no time-based recovery in classic' (housekeeping), 'every packet kind' (the retransmit / critical-window override in handle_srt_packet) and the "
-            "per-datagram ORDER in which the +29 and +1 rules are applied to an SRTLA ACK list (process_connection_events) are shell clauses and are "
-            "NOT decided (async shell harnesses do not finish in CBMC); closed-loop histories are covered inductively (the reference is a function of "
-            "the current state)",
+    outside="'no time-based recovery in classic' (housekeeping) and 'every packet kind' (since the repair of F5 the retransmit / critical-window override "
+            "in handle_srt_packet is switched off in classic mode by one condition at the call site) are shell clauses that are NOT decided by the solver; the per-datagram ORDER of the +29 / +1 rules is decided for SRTLA ACK lists of two numbers over two "
+            "links; closed-loop histories are covered inductively (the reference is a function of the current state)",
     harnesses=[
         H("c10::c10_classic_reference_n2", "core", desc="classic choice == reference argmax, guard off", bounds="N=2"),
         H("c06::c06_ack_classic_step", "core", desc="+29 iff in_flight*1000 > window (unbounded integers), capped"),
@@ -198,6 +198,9 @@ PROPS["C10"] = dict(
         H("c10::c10_get_score_formula", "core", desc="get_score == window / (in-flight + queued + 1), -1 when disconnected", timeout=1500),
         H("c10::c10_classic_reference_n3", "core", tier="thorough", bounds="N=3", timeout=3000),
         H("c10::c10_classic_reference_n4", "core", tier="thorough", bounds="N=4", timeout=3000),
+        H("c02s::c10_window_evolution_two_acks", "shell", desc="process_connection_events, classic mode, a datagram with TWO SRTLA ACK numbers: windows and in-flight equal the reference rules "
+          "applied per acknowledged packet IN ORDER (owner -1, +29 iff in-flight x 1000 > window, then +1 on every connected link that has heard anything; cap 60000)",
+          bounds="2 links, each number held by exactly one link, any windows / in-flight", timeout=1500),
     ],
 )
 
@@ -263,7 +266,8 @@ PROPS["C14"] = dict(
 
 PROPS["C02"] = dict(
     functions=["SrtlaConnection::{register_packet, handle_srt_ack, handle_nak, handle_srtla_ack_specific, mark_for_recovery, "
-               "reset_for_reconnect, clear_pre_registration_state}", "CongestionControl::handle_nak"],
+               "reset_for_reconnect, clear_pre_registration_state}", "CongestionControl::handle_nak",
+               "sender::packet_handler::process_connection_events (async fn, relay send cut by verif-model, polled once)"],
     bounds="one event from an arbitrary link whose log holds any set of <= 3 distinct sequence numbers above an arbitrary cumulative-ACK "
            "mark (representation invariant, re-asserted after every event); all sequence numbers (outstanding, mark, event argument) range "
            "over a window of 256 consecutive values of the 31-bit space - three window positions: 0, 2^31-256 and a VERIF_SEED-chosen base; "
@@ -271,7 +275,8 @@ PROPS["C02"] = dict(
     stubs=["alloc::fmt::format -> empty String", "RttTracker::update_estimate -> no-op (RTT sampling is not part of C02)"],
     assumptions=["packet_log modelled as a 4-entry finite map in the Kani build", "sequence numbers within one 256-wide window per query (no wrap)"],
     outside="wrap-around of the 31-bit space; sequence numbers more than 255 apart in one query; more than 3 simultaneously outstanding "
-            "numbers per link; the multi-link dispatch of ACK lists (process_connection_events) is decided by the shell harness when present",
+            "numbers per link; multi-link dispatch (process_connection_events) is decided for ONE acknowledged number per datagram over 3 links (SRTLA "
+            "ACK) / 2 links (cumulative ACK); NAK dispatch is C05",
     harnesses=[
         H("c02::c02_register_step_low", "core", desc="send: distinct numbers counted once; INV preserved (retransmission at/below the ACK mark)", env={"VERIF_MAP_CAP": "4"}),
         H("c02::c02_cumulative_ack_step_low", "core", desc="cumulative ACK == set model for any mark/ack spacing (fast and slow path)", env={"VERIF_MAP_CAP": "4"}, timeout=1500, tier="thorough"),
@@ -288,6 +293,11 @@ PROPS["C02"] = dict(
         H("c02::c02_take_batch_step_high", "core", tier="thorough", desc="same, high window", env={"VERIF_MAP_CAP": "4"}),
         H("c02::c02_ack_order_independent_mid", "core", tier="thorough", desc="ACK a;b == ACK max(a,b)", env={"VERIF_MAP_CAP": "4"}, timeout=3000),
         H("c02::c02_history_4_mid", "core", tier="thorough", desc="4-event history vs set model", env={"VERIF_MAP_CAP": "4"}, timeout=3000),
+        # multi-link dispatch through the real async shell function (polled once, DESIGN.md 2.5)
+        H("c02s::c02_srtla_ack_dispatch_idx0", "shell", desc="process_connection_events, one SRTLA ACK over 3 links, arrival link 0: retired on the arrival link if it holds the packet, "
+          "else on exactly ONE other holder (the lowest-numbered); every other link and every other number untouched; the owner earns delivery proof", bounds="3 links x any subset of 4 distinct numbers", timeout=1500),
+        H("c02s::c02_srtla_ack_dispatch_idx1", "shell", desc="same, arrival link 1", bounds="3 links x any subset of 4 distinct numbers", timeout=1500),
+        H("c02s::c02_cumulative_ack_every_link", "shell", desc="process_connection_events, one cumulative SRT ACK: retires everything at or below it on EVERY link, in-flight follows", bounds="2 links x any subset of 4 distinct numbers, any ACK number", timeout=1500),
     ],
 )
 
